@@ -614,9 +614,19 @@ func (p *pool) runBound(sc *Scenario, b Bound, budget time.Duration) *BoundRepor
 	for len(queue) > 0 || inflight > 0 {
 		for len(queue) > 0 && len(idle) > 0 {
 			if time.Now().After(deadline) {
+				// out of time: what is still queued is dropped - except items whose worker had to be stopped, which
+				// get their second attempt whatever the clock says (a verdict on them is owed)
 				br.Complete = false
-				queue = nil
-				break
+				var keep []Item
+				for _, q := range queue {
+					if q.Retries > 0 {
+						keep = append(keep, q)
+					}
+				}
+				queue = keep
+				if len(queue) == 0 {
+					break
+				}
 			}
 			// largest subtrees first: shortest prefixes
 			it := queue[0]
@@ -649,10 +659,15 @@ func (p *pool) runBound(sc *Scenario, b Bound, budget time.Duration) *BoundRepor
 			if d.it.Retries < 1 {
 				// (a worker stopped by its watchdog or by the system: its item goes to a fresh worker once)
 				d.it.Retries++
+				d.it.Deadline = time.Now().Add(budget) // (it may take as long again as the whole bound was given)
 				queue = append(queue, d.it)
 				br.Restarts++
-			} else if br.engineErr == "" {
-				br.engineErr = fmt.Sprintf("worker died twice while exploring scenario %s prefix %v: %v", d.it.Scenario, d.it.Prefix, d.err)
+			} else if br.viol["hang/execution-never-ends"] == nil {
+				// twice, at the same place, in fresh workers: not an accident of the engine. The explorations are
+				// deterministic, so this is an execution of the code under test that does not end and never reaches a
+				// scheduling point (a loop that does not terminate): reported as a violation with the prefix as its replay
+				br.viol["hang/execution-never-ends"] = &FoundViolation{Key: "hang/execution-never-ends", Msg: fmt.Sprintf("an execution of scenario %s at or below the choice prefix %v did not end within %v of wall time in two fresh worker processes (no scheduling point is reached any more: a loop in the code under test that does not terminate); goroutine stacks: /var/tmp/mc-watchdog-*.txt", d.it.Scenario, d.it.Prefix, watchdogLimit), Choices: d.it.Prefix, Cost: 0}
+				br.violCount["hang/execution-never-ends"]++
 			}
 			// replace the worker
 			if w, err := startWorker(); err == nil {
